@@ -276,7 +276,6 @@ fn enumerate(w: &mut World, prop: &str, seed: u64, extra: &mut BTreeMap<&'static
     let check_data = prop == "C05" || prop == "C12";
     let spans = w.op_spans.clone();
     let syncs = w.sync_points.clone();
-    let mut kf08: Option<String> = None;
     'outer: for k in points {
         let cp = tl.at(k);
         let fam = crash::families(&cp, budget.torn, &mut rng);
@@ -359,28 +358,6 @@ fn enumerate(w: &mut World, prop: &str, seed: u64, extra: &mut BTreeMap<&'static
                         }
                         Ok(buf) => {
                             if let (Some(sp), true) = (sp, check_data) {
-                                // KF08: a cluster that gets its first own
-                                // allocation from a write issued after the
-                                // sync is mapped before it is zeroed /
-                                // written; if that mapping reaches the disk
-                                // first, the whole cluster reads stale host
-                                // bytes after the crash
-                                // (not on the copy-on-write path - content
-                                // from a backing image or a compressed
-                                // cluster -, which syncs the data and holds
-                                // the slice lock until the mapping is written)
-                                let class = sp.model.class_of(*g);
-                                let plain_path = class == crate::model::CClass::Zero
-                                    || (class == crate::model::CClass::Unalloc && w.cfg.layers.len() == 1);
-                                let fresh = plain_path
-                                    && spans.iter().any(|s| {
-                                        s.base.is_some()
-                                            && s.len > 0
-                                            && s.end_seq >= sp.alt_from
-                                            && s.start_seq <= k
-                                            && s.off / cs <= *g
-                                            && (s.off + s.len - 1) / cs >= *g
-                                    });
                                 for s in 0..len / 512 {
                                     let sec = off / 512 + s as u64;
                                     let bytes = &buf[s * 512..(s + 1) * 512];
@@ -389,18 +366,6 @@ fn enumerate(w: &mut World, prop: &str, seed: u64, extra: &mut BTreeMap<&'static
                                         Some(id) => allowed.contains(&id),
                                         None => false,
                                     };
-                                    if !ok && fresh {
-                                        problems.push((
-                                            "kf08".into(),
-                                            format!(
-                                                "guest sector {sec} (cluster {g}, first allocated by a write issued after the sync at event {}) reads {} after the crash; allowed: {:x?}",
-                                                sp.seq,
-                                                content::describe(bytes),
-                                                allowed
-                                            ),
-                                        ));
-                                        break;
-                                    }
                                     if !ok {
                                         problems.push((
                                             format!("synced-data-lost/{}", {
@@ -442,12 +407,6 @@ fn enumerate(w: &mut World, prop: &str, seed: u64, extra: &mut BTreeMap<&'static
                 }
                 Ok(problems) => {
                     let mut problems = problems;
-                    if let Some(i) = problems.iter().position(|(s, _)| s == "kf08") {
-                        let (_, d) = problems[i].clone();
-                        problems.retain(|(s, _)| s != "kf08");
-                        *extra.entry("kf08_data_images").or_insert(0) += 1;
-                        kf08.get_or_insert(format!("{}\n  {d}", describe_point(&tl, &cp, c)));
-                    }
                     if let Some((sig, d)) = problems.into_iter().next() {
                         let props: &[&'static str] = if sig.starts_with("synced") {
                             &["C05", "C12"]
@@ -466,13 +425,6 @@ fn enumerate(w: &mut World, prop: &str, seed: u64, extra: &mut BTreeMap<&'static
         }
     }
     let _ = json!(null);
-    if let Some(d) = kf08 {
-        w.viol_nonfatal(
-            &["C05", "C12"],
-            "crash-image/new-cluster-mapped-before-its-data",
-            d,
-        );
-    }
 }
 
 /// coarse class for the signature: which API operation the crash point is in
